@@ -1480,6 +1480,8 @@ def canonicalPyi (m : PyModule) : PM PyModule := do
   let u ← convert m
   let c := canonUnit u
   if !verifyUnit c then .error (.parse "VerifyVisitor")
+  -- the printer model only speaks for `Modelled` units
+  if !(modelledGuards c).all (·.2) then .error (.unsupported "canonical form outside the printer model")
   .ok (printUnit c)
 
 /-! ## `InFragment`: the emitted-dialect fragment the theorems of Props/C05.lean quantify over
